@@ -129,6 +129,12 @@ where
         &self.signature
     }
 
+    /// verification hook: per-position register (race) values
+    #[cfg(probminhash_verif)]
+    pub fn verif_registers(&self) -> Vec<f64> {
+        (0..self.m).map(|k| self.maxvaluetracker.get_value(k)).collect()
+    }
+
     /// reinitialize structure for another hash pass
     pub fn reset(&mut self) {
         self.signature.fill(self.initobj);
